@@ -38,10 +38,17 @@ type pagePlan struct {
 	byOffset   bool
 	reverse    bool
 	countTotal bool
+	// firstLimit > 0: the first page is requested with this limit, the following ones with limit (so that offsets are
+	// not multiples of the page size, and a key continuation starts in the middle of what a fixed page size would use)
+	firstLimit uint64
 }
 
 func mkPlan(n, matches int) pagePlan {
-	return pagePlan{limit: uint64(1 + n%(matches+3)), byOffset: (n/5)%2 == 1, reverse: (n/3)%4 == 3, countTotal: n%2 == 0}
+	p := pagePlan{limit: uint64(1 + n%(matches+3)), byOffset: (n/5)%2 == 1, reverse: (n/3)%4 == 3, countTotal: n%2 == 0}
+	if (n/7)%3 == 1 {
+		p.firstLimit = uint64(1 + (n/11)%(matches+2))
+	}
+	return p
 }
 
 // pageAll pages a list query to exhaustion and compares with the expected items (ascending store order).
@@ -59,6 +66,9 @@ func pageAll(w *World, name string, plan pagePlan, want [][]byte, fetch pageFetc
 	pages := 0
 	for guard := 0; guard < 20000; guard++ {
 		pr := &query.PageRequest{Limit: plan.limit, Reverse: plan.reverse, CountTotal: plan.countTotal}
+		if pages == 0 && plan.firstLimit > 0 {
+			pr.Limit = plan.firstLimit
+		}
 		if plan.byOffset {
 			pr.Offset = offset
 		} else {
@@ -70,8 +80,8 @@ func pageAll(w *World, name string, plan pagePlan, want [][]byte, fetch pageFetc
 			return
 		}
 		pages++
-		if uint64(len(items)) > plan.limit {
-			w.Fail("C20", "%s (plan %+v) returned %d items on one page, the limit is %d", name, plan, len(items), plan.limit)
+		if uint64(len(items)) > pr.Limit {
+			w.Fail("C20", "%s (plan %+v) returned %d items on one page, the limit is %d", name, plan, len(items), pr.Limit)
 			return
 		}
 		if plan.countTotal && resp != nil && (plan.byOffset || pages == 1) && resp.Total != uint64(len(want)) {
